@@ -581,9 +581,10 @@ fn push_stub<F: UF>(f: F, first_pos: usize, pats: &[PatSpec], out: &mut DynClaus
 /// line of the `matching!` invocation) count the patterns of the same method, left to right
 /// (modulo MAX_POS: lists longer than that reuse lines, which only matters for pattern *names*).
 pub fn build_clause(clauses: &[ClauseSpec]) -> DynClause {
-    let mut out = DynClause::new();
+    let mut items: Vec<DynClause> = vec![];
     let mut next_pos: BTreeMap<M, usize> = BTreeMap::new();
     for clause in clauses {
+        let mut out = DynClause::new();
         match clause {
             ClauseSpec::Single { m, entry, pat } => {
                 let pos = next_pos.entry(*m).or_insert(0);
@@ -598,6 +599,50 @@ pub fn build_clause(clauses: &[ClauseSpec]) -> DynClause {
                 crate::with_mockfn!(*m, push_stub(p, pats, &mut out));
             }
         }
+        items.push(out);
+    }
+    compose(items)
+}
+
+/// Compose clauses through unimock's own tuple implementations: n <= 16 clauses become one real
+/// n-tuple, longer lists become a tuple of 16-tuples (and so on). The run-time-length list of the
+/// hooks (H1) only erases the element types.
+pub fn compose(items: Vec<DynClause>) -> DynClause {
+    if items.len() > 16 {
+        let mut chunks: Vec<DynClause> = vec![];
+        let mut it = items.into_iter().peekable();
+        while it.peek().is_some() {
+            chunks.push(compose(it.by_ref().take(16).collect()));
+        }
+        return compose(chunks);
+    }
+    let n = items.len();
+    let mut it = items.into_iter();
+    let mut out = DynClause::new();
+    macro_rules! tuple_of {
+        ($($x:ident)+) => {{
+            $(let $x = it.next().unwrap();)+
+            out.push(($($x),+));
+        }};
+    }
+    match n {
+        0 => out.push(()),
+        1 => out.push(it.next().unwrap()),
+        2 => tuple_of!(a b),
+        3 => tuple_of!(a b c),
+        4 => tuple_of!(a b c d),
+        5 => tuple_of!(a b c d e),
+        6 => tuple_of!(a b c d e f),
+        7 => tuple_of!(a b c d e f g),
+        8 => tuple_of!(a b c d e f g h),
+        9 => tuple_of!(a b c d e f g h i),
+        10 => tuple_of!(a b c d e f g h i j),
+        11 => tuple_of!(a b c d e f g h i j k),
+        12 => tuple_of!(a b c d e f g h i j k l),
+        13 => tuple_of!(a b c d e f g h i j k l m),
+        14 => tuple_of!(a b c d e f g h i j k l m n2),
+        15 => tuple_of!(a b c d e f g h i j k l m n2 o),
+        _ => tuple_of!(a b c d e f g h i j k l m n2 o p),
     }
     out
 }
